@@ -371,7 +371,8 @@ func (m *Match) populateOtherGroups() {
 	if m.otherGroups == nil {
 		m.otherGroups = make([]Group, len(m.matchcount)-1)
 		for i := 0; i < len(m.otherGroups); i++ {
-			m.otherGroups[i] = newGroup(m.regex.GroupNameFromNumber(i+1), m.text, m.matches[i+1], m.matchcount[i+1])
+			// i+1 is the position of the group in the capture arrays, which is not its number when the numbers have gaps
+			m.otherGroups[i] = newGroup(m.regex.groupNameFromIndex(i+1), m.text, m.matches[i+1], m.matchcount[i+1])
 		}
 	}
 }
